@@ -16,6 +16,9 @@ args = sys.argv[1:]
 do_base = "--baseline" in args
 do_check = "--check" in args
 jobs = 5
+only = None
+if "--only-checks" in args:
+    only = args[args.index("--only-checks") + 1].split(","); del args[args.index("--only-checks"):args.index("--only-checks") + 2]
 if "--jobs" in args:
     jobs = int(args[args.index("--jobs") + 1]); del args[args.index("--jobs"):args.index("--jobs") + 2]
 names = [a for a in args if not a.startswith("--")] or sorted(os.listdir(V + "/seeded"))
@@ -26,79 +29,112 @@ def sh(cmd, **kw):
     return subprocess.run(cmd, capture_output=True, text=True, **kw)
 
 
-def one(name):
+def prep(name):
     d = "%s/seeded/%s" % (V, name)
     meta = json.load(open(d + "/meta.json"))
     prop = meta.get("property") or name.split("-")[0]
-    checks = meta.get("checks") or [prop]
-    wt = "/tmp/wt-regress-%s-%d" % (name, os.getpid())
-    res = {"head": sh(["git", "-C", "/repo", "rev-parse", "--short", "HEAD"]).stdout.strip(), "property": prop}
+    res = {"head": HEAD, "property": prop}
     pf = d + "/regress.json"
     if os.path.exists(pf):
         try:
             old = json.load(open(pf))
-            if old.get("head") == res["head"]:
+            if old.get("head") == HEAD:
                 res = old
+            else:   # keep the pinned-test result (recorded with the HEAD it was run on), drop check results
+                for k in ("pinned_tests_pass_with_change", "pinned_tests"):
+                    if k in old:
+                        res[k] = old[k]
+                if "pinned_tests_pass_with_change" in old:
+                    res["pinned_tests_head"] = old.get("pinned_tests_head", old.get("head"))
         except Exception:
             pass
+    return d, meta, prop, res, pf
+
+
+LOCK = __import__("threading").Lock()
+
+
+def save(name, upd):
+    """merge `upd` into seeded/<name>/regress.json (several threads may hold results for one seed)"""
+    with LOCK:
+        d, meta, prop, res, pf = prep(name)
+        for k, v in upd.items():
+            if k == "checks":
+                res.setdefault("checks", {}).update(v)
+            else:
+                res[k] = v
+        json.dump(res, open(pf, "w"), indent=1)
+        return res
+
+
+def with_tree(name, fn):
+    d = "%s/seeded/%s" % (V, name)
+    wt = "/tmp/wt-regress-%s-%d-%d" % (name, os.getpid(), __import__("threading").get_ident() % 100000)
     if sh(["git", "-C", "/repo", "worktree", "add", "-q", wt, "HEAD"]).returncode:
-        return name, {"error": "worktree"}
+        return {"error": "worktree"}
     try:
         ap = sh(["git", "apply", d + "/patch.diff"], cwd=wt)
         if ap.returncode:
             ap = sh(["git", "apply", "-3", d + "/patch.diff"], cwd=wt)
-        res["applies_to_head"] = ap.returncode == 0
-        if not res["applies_to_head"]:
-            res["apply_error"] = ap.stderr[-300:]
-        else:
-            if do_base:
-                b = sh(["python3", V + "/tools/baseline_check.py", wt])
-                res["pinned_tests_pass_with_change"] = b.returncode == 0
-                res["pinned_tests"] = b.stdout.strip().splitlines()[:4]
-            if do_check:
-                res["checks"] = {}
-                for c in checks:
-                    for seed in (0, 1):
-                        env = dict(os.environ, VERIF_REPO=wt, VERIF_SEED=str(seed),
-                                   VERIF_EVIDENCE_DIR="/tmp/seed-evidence")
-                        t = time.time()
-                        try:
-                            r = sh([V + "/check", c], cwd=V, env=env, timeout=1800)
-                            out = r.stdout + r.stderr; rc = r.returncode
-                        except subprocess.TimeoutExpired:
-                            out, rc = "", 124
-                        vio = [ln for ln in out.splitlines() if ln.startswith("VIOLATION")]
-                        fi = [ln for ln in out.splitlines() if ln.startswith("failing input")]
-                        res["checks"]["%s seed %d" % (c, seed)] = {
-                            "rc": rc, "violation": vio[:1], "failing_input": [x[:300] for x in fi[:1]],
-                            "no_failing_input_found": any("no-failing-input-found" in v for v in vio),
-                            "wall_s": round(time.time() - t)}
+        if ap.returncode:
+            return {"applies_to_head": False, "apply_error": ap.stderr[-300:]}
+        out = {"applies_to_head": True}
+        out.update(fn(wt))
+        return out
     finally:
         sh(["git", "-C", "/repo", "worktree", "remove", "--force", wt])
-    json.dump(res, open(pf, "w"), indent=1)
-    return name, res
 
 
-def group(names):
-    g = {}
-    for n in names:
-        m = json.load(open("%s/seeded/%s/meta.json" % (V, n)))
-        g.setdefault(m.get("property") or n, []).append(n)
-    return g
+def baseline(name):
+    def fn(wt):
+        b = sh(["python3", V + "/tools/baseline_check.py", wt])
+        return {"pinned_tests_pass_with_change": b.returncode == 0, "pinned_tests": b.stdout.strip().splitlines()[:4], "pinned_tests_head": HEAD}
+    r = save(name, with_tree(name, fn))
+    return "%s applies=%s tests=%s" % (name, r.get("applies_to_head"), r.get("pinned_tests_pass_with_change"))
 
 
-def run_group(ns):
-    return [one(n) for n in ns]
+def run_check_group(c, ns):
+    lines = []
+    for name in ns:
+        def fn(wt):
+            out = {}
+            for seed in (0, 1):
+                env = dict(os.environ, VERIF_REPO=wt, VERIF_SEED=str(seed), VERIF_EVIDENCE_DIR="/tmp/seed-evidence")
+                t = time.time()
+                try:
+                    r = sh([V + "/check", c], cwd=V, env=env, timeout=1800)
+                    o = r.stdout + r.stderr; rc = r.returncode
+                except subprocess.TimeoutExpired:
+                    o, rc = "", 124
+                vio = [ln for ln in o.splitlines() if ln.startswith("VIOLATION")]
+                fi = [ln for ln in o.splitlines() if ln.startswith("failing input")]
+                out["%s seed %d" % (c, seed)] = {"rc": rc, "violation": vio[:1], "failing_input": [x[:300] for x in fi[:1]],
+                                                 "no_failing_input_found": any("no-failing-input-found" in v for v in vio),
+                                                 "wall_s": round(time.time() - t)}
+            return {"checks": out}
+        r = with_tree(name, fn)
+        save(name, r)
+        bits = [name, c]
+        for k, v in (r.get("checks") or {}).items():
+            bits.append("s%s:rc%d%s" % (k[-1], v["rc"], "(nfif)" if v["no_failing_input_found"] else ""))
+        if not r.get("applies_to_head", True):
+            bits.append("PATCH-DOES-NOT-APPLY")
+        lines.append(" ".join(bits))
+        print(lines[-1], flush=True)
+    return lines
 
 
+HEAD = sh(["git", "-C", "/repo", "rev-parse", "--short", "HEAD"]).stdout.strip()
 os.makedirs("/tmp/seed-evidence", exist_ok=True)
 with cf.ThreadPoolExecutor(jobs) as ex:
-    futs = [ex.submit(run_group, ns) for ns in (group(names).values() if do_check else [[n] for n in names])]
-    for f in cf.as_completed(futs):
-        for name, res in f.result():
-            line = [name, "applies=%s" % res.get("applies_to_head")]
-            if "pinned_tests_pass_with_change" in res:
-                line.append("tests=%s" % res["pinned_tests_pass_with_change"])
-            for k, v in (res.get("checks") or {}).items():
-                line.append("%s:rc%d%s" % (k, v["rc"], "(nfif)" if v["no_failing_input_found"] else ""))
-            print(" ".join(line), flush=True)
+    if do_base:
+        for l in ex.map(baseline, names):
+            print(l, flush=True)
+    if do_check:
+        by = {}
+        for n in names:
+            m = json.load(open("%s/seeded/%s/meta.json" % (V, n)))
+            for c in (m["checks"] if "checks" in m else [m.get("property")]):
+                if only is None or c in only:
+                    by.setdefault(c, []).append(n)
+        list(ex.map(lambda kv: run_check_group(*kv), sorted(by.items())))
